@@ -2648,29 +2648,41 @@ avx_rule_subusl_slow (OrcCompiler *p, void *user, OrcInstruction *insn)
   const int size = p->vars[insn->src_args[0]].size << p->loop_shift;
 
   if (size >= 32) {
+    /* borrow of a - b: sign of (a>>1) - (b>>1) - (~a & b & 1) */
     orc_avx_emit_psrld_imm (p, 1, src1, tmp2);
 
     orc_avx_emit_psrld_imm (p, 1, src0, tmp);
-    orc_avx_emit_psubd (p, tmp2, tmp, tmp2);
+    orc_avx_emit_psubd (p, tmp, tmp2, tmp);
 
-    /* turn overflow bit into mask */
-    orc_avx_emit_psrad_imm (p, 31, tmp2, tmp2);
+    orc_avx_emit_pandn (p, src0, src1, tmp2);
+    orc_avx_emit_pslld_imm (p, 31, tmp2, tmp2);
+    orc_avx_emit_psrld_imm (p, 31, tmp2, tmp2);
+    orc_avx_emit_psubd (p, tmp, tmp2, tmp);
 
-    /* compute the difference, then and over the mask */
+    /* turn borrow bit into mask */
+    orc_avx_emit_psrad_imm (p, 31, tmp, tmp);
+
+    /* compute the difference, then clear it where it borrowed */
     orc_avx_emit_psubd (p, src0, src1, dest);
-    orc_avx_emit_pand (p, tmp2, dest, dest);
+    orc_avx_emit_pandn (p, tmp, dest, dest);
   } else {
+    /* borrow of a - b: sign of (a>>1) - (b>>1) - (~a & b & 1) */
     orc_avx_sse_emit_psrld_imm (p, 1, src1, tmp2);
 
     orc_avx_sse_emit_psrld_imm (p, 1, src0, tmp);
-    orc_avx_sse_emit_psubd (p, tmp2, tmp, tmp2);
+    orc_avx_sse_emit_psubd (p, tmp, tmp2, tmp);
 
-    /* turn overflow bit into mask */
-    orc_avx_sse_emit_psrad_imm (p, 31, tmp2, tmp2);
+    orc_avx_sse_emit_pandn (p, src0, src1, tmp2);
+    orc_avx_sse_emit_pslld_imm (p, 31, tmp2, tmp2);
+    orc_avx_sse_emit_psrld_imm (p, 31, tmp2, tmp2);
+    orc_avx_sse_emit_psubd (p, tmp, tmp2, tmp);
 
-    /* compute the difference, then and over the mask */
+    /* turn borrow bit into mask */
+    orc_avx_sse_emit_psrad_imm (p, 31, tmp, tmp);
+
+    /* compute the difference, then clear it where it borrowed */
     orc_avx_sse_emit_psubd (p, src0, src1, dest);
-    orc_avx_sse_emit_pand (p, tmp2, dest, dest);
+    orc_avx_sse_emit_pandn (p, tmp, dest, dest);
   }
 }
 
